@@ -21,6 +21,7 @@ THEOREMS = [
 
 
 def expected_from_spec(layers, opts):
+    opts = bfsrun.with_defaults(opts)
     limit = opts.get("max_layer_size_to_store", 1000) or 10**15
     sizes = [len(l) for l in layers]
     last = len(layers) - 1
